@@ -29,7 +29,9 @@ pub fn place_case(idx: usize, s: &Sym) -> Value {
         visits
     });
     match r {
-        Outcome::Val(visits) => {
+        Outcome::Val(mut visits) => {
+            // the property fixes which module holds which codeword bit, not the order in which the codewords are visited
+            visits.sort_by_key(|v| v.0);
             let base = visits.iter().flat_map(|v| v.1.iter().copied()).min().unwrap_or(0);
             let sz = std::mem::size_of::<Tag>();
             let events: Vec<Value> = visits
